@@ -96,6 +96,8 @@ func c10Oracle(in c10In) probe.Outcome {
 	labels := []string{"encr:" + ref.Encrs[in.Encr].Name}
 	ivs := map[string]bool{}
 	nontrivial := false
+	type held struct{ p, ct, snapshot []byte }
+	var kept []held // ciphertexts returned earlier, still held by the caller
 	for i, op := range in.Ops {
 		fresh, err := c10New(in.Encr, key)
 		if err != nil {
@@ -147,6 +149,7 @@ func c10Oracle(in c10In) probe.Outcome {
 				return probe.Fail("step %d: IV repeated across calls", i)
 			}
 			ivs[string(ct2[:16])] = true
+			kept = append(kept, held{p, ctL, append([]byte(nil), ctL...)}, held{p, ct2, append([]byte(nil), ct2...)})
 			if len(p) > 16 || len(p)%16 == 15 || len(p)%16 == 0 {
 				nontrivial = true
 			}
@@ -213,6 +216,12 @@ func c10Oracle(in c10In) probe.Outcome {
 		}
 		if x, ok := long.(*encr.EncrAesCbcCrypto); ok && (x.Iv != nil || x.Padding != nil) {
 			return probe.Fail("step %d: the cipher object acquired per-call state (Iv/Padding set)", i)
+		}
+	}
+	// ciphertexts handed out earlier are the caller's: later operations on the object must not have touched them
+	for j, h := range kept {
+		if !bytes.Equal(h.ct, h.snapshot) {
+			return probe.Fail("ciphertext #%d returned earlier was overwritten by a later operation on the same cipher object", j)
 		}
 	}
 	if len(in.Ops) >= 2 {
